@@ -920,13 +920,18 @@ class StridedInterval:
         all_resulting_intervals = []
         for s in self._ssplit():
             for t in o._ssplit():
-                card = s.udiv(t).cardinality
-                if card == 1:
-                    tmp = s.sub(s.udiv(t)).mul(t)
+                if t.is_integer and t.lower_bound == 0:
+                    continue
+                quotient = s.udiv(t)
+                if quotient.cardinality == 1:
+                    # s % t == s - (s / t) * t
+                    tmp = s.sub(quotient.mul(t))
                 else:
-                    tmp = StridedInterval(bits=self.bits, stride=1, lower_bound=0, upper_bound=o.upper_bound - 1)
+                    tmp = StridedInterval(bits=self.bits, stride=1, lower_bound=0, upper_bound=t.upper_bound - 1)
                 all_resulting_intervals.append(tmp)
 
+        if not all_resulting_intervals:
+            return StridedInterval.empty(self.bits)
         return StridedInterval.least_upper_bound(*all_resulting_intervals).normalize()
 
     @normalize_types
